@@ -25,6 +25,8 @@ impl LogFile {
     pub fn create(path_prefix: &Path) -> Result<Self, String> {
         for n in 0..u64::MAX {
             let dt = SystemTime::now().to_datetime();
+            #[cfg(servlin_verif)]
+            let dt = crate::verif_hooks::now().to_datetime();
             let mut path_str = path_prefix.as_os_str().to_os_string();
             path_str.push(format!(
                 ".{:04}{:02}{:02}T{:02}{:02}{:02}Z-{n}",
@@ -37,7 +39,10 @@ impl LogFile {
                         file,
                         len: 0,
                         path,
+                        #[cfg(not(servlin_verif))]
                         created: SystemTime::now(),
+                        #[cfg(servlin_verif)]
+                        created: crate::verif_hooks::now(),
                     })
                 }
                 Err(e) if e.kind() == ErrorKind::AlreadyExists => {}
@@ -194,9 +199,13 @@ impl LogFileWriter {
         buffer.clear();
         let (sender, receiver): (SyncSender<LogEvent>, Receiver<LogEvent>) = sync_channel(100);
         std::thread::spawn(move || {
+            #[cfg(servlin_verif)]
+            crate::verif_hooks::writer_started();
             for event in receiver {
                 event.write_jsonl(&mut buffer).unwrap();
                 let now = SystemTime::now();
+                #[cfg(servlin_verif)]
+                let now = crate::verif_hooks::now();
                 if file.len + (buffer.len() as u64) > self.max_write_bytes
                     || file.age(now) > self.max_write_age
                 {
@@ -217,6 +226,8 @@ impl LogFileWriter {
                     .unwrap();
                 file.write_all(&buffer).unwrap();
                 buffer.clear();
+                #[cfg(servlin_verif)]
+                crate::verif_hooks::writer_event_done();
             }
             file.file.sync_all().unwrap();
         });
